@@ -87,7 +87,7 @@ package ro
 
 //@ func (*subscriberImpl).NextWithContext
 //@   props C01 C02 C06 C08
-//@   track destination.* hook.* call.NewNotification* Subscription.* go.*
+//@   track destination.* hook.* call.NewNotification* Subscription.* spawn.*
 //@   ensures [nil-destination-silent|C01] s.destination == nil ==> trace()
 //@   ensures [block-mode-waits|C08] s.backpressure != 1 ==> !tried(mu)
 //@   ensures [delivers-iff-open|C01,C06,C08] did_load(status) ==> iff(loaded(status) == 0, trace(destination.NextWithContext(ctx, v)))
@@ -97,7 +97,7 @@ package ro
 //@ func (*subscriberImpl).ErrorWithContext
 //@   props C01 C02 C03 C06 C14
 //@   inline (*subscriberImpl).unsubscribe
-//@   track destination.* hook.* call.NewNotification* Subscription.* go.*
+//@   track destination.* hook.* call.NewNotification* Subscription.* spawn.*
 //@   ensures [winner-delivers-then-tears-down|C01,C03,C06,C14] cas_ok(status) && s.destination != nil ==> trace(destination.ErrorWithContext(ctx, err), Subscription.Unsubscribe())
 //@   ensures [winner-nil-destination|C03] cas_ok(status) && s.destination == nil ==> trace(Subscription.Unsubscribe())
 //@   ensures [loser-is-dropped|C01] !cas_ok(status) ==> trace(call.NewNotificationError(err), hook.OnDroppedNotification(ctx, _), Subscription.Unsubscribe())
@@ -108,7 +108,7 @@ package ro
 //@ func (*subscriberImpl).CompleteWithContext
 //@   props C01 C02 C03 C06 C14
 //@   inline (*subscriberImpl).unsubscribe
-//@   track destination.* hook.* call.NewNotification* Subscription.* go.*
+//@   track destination.* hook.* call.NewNotification* Subscription.* spawn.*
 //@   ensures [winner-delivers-then-tears-down|C01,C03,C06,C14] cas_ok(status) && s.destination != nil ==> trace(destination.CompleteWithContext(ctx), Subscription.Unsubscribe())
 //@   ensures [winner-nil-destination|C03] cas_ok(status) && s.destination == nil ==> trace(Subscription.Unsubscribe())
 //@   ensures [loser-is-dropped|C01] !cas_ok(status) ==> trace(call.NewNotificationComplete(), hook.OnDroppedNotification(ctx, _), Subscription.Unsubscribe())
@@ -119,7 +119,7 @@ package ro
 //@ func (*subscriberImpl).Unsubscribe
 //@   props C03 C06 C14
 //@   inline (*subscriberImpl).unsubscribe
-//@   track destination.* hook.* Subscription.* lock.* trylock.* go.*
+//@   track destination.* hook.* Subscription.* lock.* trylock.* spawn.*
 //@   ensures [cut|C06] s.status != 0
 //@   ensures [winner-tears-down|C03,C14] cas_ok(status) ==> trace(Subscription.Unsubscribe())
 //@   ensures [loser-does-nothing|C03] !cas_ok(status) ==> trace()
